@@ -86,12 +86,16 @@ Section SessionProofs.
   Variable ser : msg -> list Z.
   Variable parse : list Z -> option (msg * list Z).
 
+  Variable okmsg : msg -> Prop.      (* what the codec can carry (status range, sizes ...) *)
+
   Hypothesis all11 : forall r, ver11 r = true.
   Hypothesis app_wf : forall r, wf_resp (app r) = true.
-  (* contracts of the message codec (head + framed body), for delimited messages only *)
-  Hypothesis parse_complete : forall m rest, delimited m -> parse (ser m ++ rest) = Some (m, rest).
-  Hypothesis parse_incomplete : forall m pre suf, delimited m -> ser m = pre ++ suf -> suf <> [] ->
+  Hypothesis app_ok : forall r, okmsg (snd (Model.respond_to app ver11 None r)).
+  (* contracts of the message codec (head + framed body), for delimited messages it can carry *)
+  Hypothesis parse_complete : forall m rest, okmsg m -> delimited m -> parse (ser m ++ rest) = Some (m, rest).
+  Hypothesis parse_incomplete : forall m pre suf, okmsg m -> delimited m -> ser m = pre ++ suf -> suf <> [] ->
                                                   parse pre = None.
+  Hypothesis ser_nonempty : forall m, okmsg m -> delimited m -> ser m <> [].
 
   Notation respond_to := (respond_to app ver11).
   Notation serve_all := (serve_all app ver11).
@@ -119,19 +123,8 @@ Section SessionProofs.
     rewrite IH. reflexivity.
   Qed.
 
-  Lemma ser_nonempty : forall m, delimited m -> ser m <> [].
-  Proof.
-    intros m Hm Hnil.
-    set (m1 := {| m_status := 0; m_frame := Chunked; m_body := [] |}).
-    set (m2 := {| m_status := 1; m_frame := Chunked; m_body := [] |}).
-    assert (D1 : delimited m1) by exact I.
-    assert (D2 : delimited m2) by exact I.
-    pose proof (parse_complete m (ser m1) Hm) as A1. rewrite Hnil in A1. cbn [List.app] in A1.
-    pose proof (parse_complete m1 [] D1) as B1. rewrite app_nil_r in B1.
-    pose proof (parse_complete m (ser m2) Hm) as A2. rewrite Hnil in A2. cbn [List.app] in A2.
-    pose proof (parse_complete m2 [] D2) as B2. rewrite app_nil_r in B2.
-    rewrite A1 in B1. rewrite A2 in B2. inversion B1. inversion B2. subst m. discriminate.
-  Qed.
+  Lemma answer_ok : forall r, okmsg (answer r).
+  Proof. intro r. apply app_ok. Qed.
 
   Definition Inv (s : st) : Prop :=
     (waited s = None /\ c2s s = [] /\ s2c s = [] /\ rxbs s = [] /\
@@ -180,19 +173,21 @@ Section SessionProofs.
       + cbn [Model.do_step]. rewrite Hw, Hr.
         assert (Hn : parse [] = None).
         { apply (parse_incomplete (answer r) [] (ser (answer r))).
+          - apply answer_ok.
           - apply answer_delimited.
           - reflexivity.
-          - apply ser_nonempty. apply answer_delimited. }
+          - apply ser_nonempty; [apply answer_ok|apply answer_delimited]. }
         rewrite Hn. right. left. exists r. repeat split; assumption.
       + cbn [Model.do_step]. rewrite Hw.
         destruct (s2c s) as [|x xs] eqn:Hs.
         * rewrite app_nil_r in Hr. rewrite Hr.
-          pose proof (parse_complete (answer r) [] (answer_delimited r)) as Hp.
+          pose proof (parse_complete (answer r) [] (answer_ok r) (answer_delimited r)) as Hp.
           rewrite app_nil_r in Hp. rewrite Hp.
           left. cbn. repeat split; try assumption.
           rewrite Hm. rewrite <- app_assoc. reflexivity.
         * assert (Hn : parse (rxbs s) = None).
           { apply (parse_incomplete (answer r) (rxbs s) (x :: xs)).
+            - apply answer_ok.
             - apply answer_delimited.
             - symmetry. exact Hr.
             - discriminate. }
@@ -267,7 +262,7 @@ Section SessionProofs.
       assert (E4 : s4 = {| allreqs := allreqs s; pend := p; waited := None; c2s := []; srv := sv';
                            s2c := []; rxbs := []; got := got s ++ [(r, answer r)] |}).
       { unfold s4. rewrite E3. cbn [Model.do_step waited rxbs].
-        pose proof (parse_complete (answer r) [] (answer_delimited r)) as Hpc.
+        pose proof (parse_complete (answer r) [] (answer_ok r) (answer_delimited r)) as Hpc.
         rewrite app_nil_r in Hpc. rewrite Hpc. reflexivity. }
       destruct (IH s4 I4) as [more Hmore].
       { rewrite E4. reflexivity. }
@@ -305,7 +300,7 @@ Section SessionProofs.
         assert (E4 : s4 = {| allreqs := allreqs s; pend := pend s; waited := None; c2s := []; srv := sv';
                              s2c := []; rxbs := []; got := got s ++ [(r, answer r)] |}).
         { unfold s4. rewrite E3. cbn [Model.do_step waited rxbs].
-          pose proof (parse_complete (answer r) [] (answer_delimited r)) as Hpc.
+          pose proof (parse_complete (answer r) [] (answer_ok r) (answer_delimited r)) as Hpc.
           rewrite app_nil_r in Hpc. rewrite Hpc. reflexivity. }
         cbn zeta. split; [repeat apply inv_step; exact I0|]. rewrite E4. split; reflexivity.
       - (* response partly delivered: deliver the rest, receive *)
@@ -319,7 +314,7 @@ Section SessionProofs.
         assert (E4 : s4 = {| allreqs := allreqs s; pend := pend s; waited := None; c2s := []; srv := srv s;
                              s2c := []; rxbs := []; got := got s ++ [(r, answer r)] |}).
         { unfold s4. rewrite E3. cbn [Model.do_step waited rxbs].
-          pose proof (parse_complete (answer r) [] (answer_delimited r)) as Hpc.
+          pose proof (parse_complete (answer r) [] (answer_ok r) (answer_delimited r)) as Hpc.
           rewrite app_nil_r in Hpc. rewrite Hpc. reflexivity. }
         cbn zeta. split; [repeat apply inv_step; exact I0|]. rewrite E4. split; reflexivity. }
     destruct Hfin as [pre Hpre]. cbn zeta in Hpre. destruct Hpre as [I1 [W1 A1]].
